@@ -32,10 +32,13 @@ SeqStep(To, e) ==
     THEN V(FALSE, To, "contents after " \o e.op \o " differ from the ordered dictionary: " \o ToJson(r.X))
     ELSE V(TRUE, [To EXCEPT !.X = r.X], "")
 
+\* a call that commits nothing is explained only by contents on which it has nothing to do (as in MonitorTrace):
+\* an insertion that "succeeded" without a COMMIT did not happen
+ICand(X, cl) == LET r == IDispatch(X, cl) IN IF r.X = X THEN {r.ret} ELSE {}
 ConcStep(To, e) ==
     IF e.ev = "call"
     THEN V(TRUE, [To EXCEPT !.call[e.c] = [op |-> e.op, a |-> e.a, st |-> "open", exp |-> INone,
-                                           cand |-> {IDispatch(To.X, e).ret}, written |-> {}]], "")
+                                           cand |-> ICand(To.X, e), written |-> {}]], "")
     ELSE IF e.ev \in {"commit", "awrite"}
     THEN LET cl == To.call[e.c] IN
          IF cl.op = "none" THEN V(FALSE, To, "harness: commit outside a call")
@@ -44,7 +47,7 @@ ConcStep(To, e) ==
                                  !.call = [c \in DOMAIN To.call |->
                                     IF c = e.c THEN [To.call[c] EXCEPT !.st = "multi"]
                                     ELSE IF To.call[c].op # "none" /\ To.call[c].st = "open"
-                                    THEN [To.call[c] EXCEPT !.cand = @ \cup {IDispatch(e.pairs, To.call[c]).ret}]
+                                    THEN [To.call[c] EXCEPT !.cand = @ \cup ICand(e.pairs, To.call[c])]
                                     ELSE To.call[c]]], "")
          ELSE LET r == IDispatch(To.X, cl)
                   chg == {k \in {To.X[i][1] : i \in DOMAIN To.X} \cup {r.X[i][1] : i \in DOMAIN r.X} :
@@ -65,7 +68,7 @@ ConcStep(To, e) ==
                           !.call = [c \in DOMAIN To.call |->
                              IF c = e.c THEN [To.call[c] EXCEPT !.st = "committed", !.exp = r.ret]
                              ELSE IF To.call[c].op # "none" /\ (To.call[c].st = "open" \/ To.call[c].op = "setdefault")
-                             THEN [To.call[c] EXCEPT !.cand = @ \cup {IDispatch(r.X, To.call[c]).ret},
+                             THEN [To.call[c] EXCEPT !.cand = @ \cup ICand(r.X, To.call[c]),
                                                      !.written = @ \cup chg]
                              ELSE To.call[c]]], "")
     ELSE IF e.ev = "ret"
